@@ -160,6 +160,10 @@ pub fn traverse(generators: &Rotations) -> Rotations {
         }
         visited.insert(element);
         group.push(element);
+        if group.len() > 48 {
+            // Generators of infinite order: finite subgroups of GL(3, Z) have at most 48 elements
+            break;
+        }
 
         for generator in generators {
             let product = element * generator;
